@@ -48,7 +48,7 @@ pub fn cfg() -> Cfg {
     cfg.prefer_match = 90;
     cfg.allow_empty_stub_chain = true;
     cfg.stop_at_deviation = false;
-    cfg.verify_modes = vec![VerifyMode::Drop, VerifyMode::Verify, VerifyMode::Drop, VerifyMode::Report, VerifyMode::ExplicitVerify];
+    cfg.verify_modes = vec![VerifyMode::Drop, VerifyMode::Verify, VerifyMode::Drop, VerifyMode::Report, VerifyMode::ExplicitVerify, VerifyMode::ExplicitReport];
     cfg
 }
 
